@@ -62,3 +62,23 @@ func TestBuildAndImport(t *testing.T) {
 		bc.Stop()
 	}
 }
+
+func TestGrowTree(t *testing.T) {
+	log.Root().SetHandler(log.DiscardHandler())
+	r := fw.NewRand(3, "grow")
+	w := NewWorld(r, ConfigTest(), 6)
+	tr := GrowTree(r, w, TreeSpec{MainLen: 30, Forks: 3, MaxForkLen: 6, MaxTx: 5, Uncles: true, ShorterHeavier: true, Tie: true, ReuseTx: true})
+	db, _ := w.NewDB()
+	bc, _ := w.NewChain(db, nil)
+	for _, b := range tr.Blocks() {
+		if _, err := bc.InsertChain(types.Blocks{b}); err != nil {
+			t.Fatalf("block %d: %v", b.NumberU64(), err)
+		}
+	}
+	head := bc.CurrentBlock()
+	if bc.GetTd(head.Hash(), head.NumberU64()).Cmp(tr.MaxTD()) != 0 {
+		t.Fatalf("head td %v, max %v", bc.GetTd(head.Hash(), head.NumberU64()), tr.MaxTD())
+	}
+	t.Logf("blocks %d tips %d head %d", len(tr.Order), len(tr.Tips()), head.NumberU64())
+	bc.Stop()
+}
